@@ -81,6 +81,12 @@ def gen(rng, i, tier):
                 if rng.random() < 0.6:
                     v = F(rng.choice(dom)) if rng.random() < 0.8 else G.coef(rng, zero_ok=True)
                     conn.append([C.enc(l), [v.numerator, v.denominator]])
+            if nodes and rng.random() < 0.35:
+                # the connection map also mentions nodes (a whole assignment handed over): nodes stay variables
+                for l in nodes:
+                    if rng.random() < 0.7:
+                        v = F(rng.choice(dom)) if rng.random() < 0.8 else G.coef(rng, zero_ok=True)
+                        conn.insert(rng.randrange(len(conn) + 1), [C.enc(l), [v.numerator, v.denominator]])
             case["nodes"] = [C.enc(l) for l in nodes]
             case["conn"] = conn if (conn or rng.random() < 0.5) else None
             case["nodes_type"] = rng.choice(["set", "list", "tuple"])
@@ -308,6 +314,8 @@ def tags(case, out):
     t = [case["op"] + ":" + ("dict" if case["kind"] == "dict" else "object"), "kind:" + case["kind"]]
     if case.get("scaled"):
         t.append("normalize:coefficients-scaled-by-2**%s" % ("-51..-90" if case["scaled"] < 0 else "51..90"))
+    if case["op"] == "subgraph" and any(l in case["nodes"] for l, _ in (case.get("conn") or [])):
+        t.append("subgraph:connections-mention-nodes")
     if "error" in out:
         t.append("error:" + out["error"])
     return t
